@@ -69,7 +69,7 @@ def check(prog, run):
         for setname in sets:
             for kwmode in ("none", "all"):
                 for sa in sas:
-                    fps = eval_facade(prog, name, fspec, setname, kwmode, sa=sa)
+                    fps = eval_facade(prog, name, fspec, setname, kwmode, sa=sa, other_error="fork" if kwmode == "all" else "never")
                     for fp in fps:
                         npaths += 1
                         check_path(prog, run, fp, fspec, name, file, line)
@@ -91,7 +91,11 @@ def check_path(prog, run, fp, fspec, name, file, line):
     sg = [(i, e) for i, e in calls if e["name"] == "sgio.execute"]
     decodes = fp.events("decode")
     if fp.faulted:
-        return  # error discipline is C07
+        # error discipline is C07; but even when the transport fails the command is handed over at most once
+        if len(sg) > 1:
+            run.violation("exactly-one-execute", c, "%d hand-overs to the binding on the failing path %s: the command (a write, say) is "
+                          "sent again after an error" % (len(sg), fp.label()), file, line)
+        return
     if not p.returned:
         ec = p.raised.exc_class()
         run.violation("facade-call-succeeds", "%s kwargs=%s: %s" % (c, fp.kwmode, ec.name if ec else "?"),
@@ -304,3 +308,51 @@ def check_hidden_required_kwargs(prog, run):
                               prog.file_of(f), node.lineno, f.qualname)
         run.ok("optional-argument-stays-optional", f.qualname, nontrivial=False)
     run.count("functions_with_kwargs", n)
+
+
+def thorough(prog, run):
+    """use sites: the arguments the shipped programs (tools/, examples/) pass to the facade must be accepted"""
+    import glob
+    import os
+    methods = facade_methods(prog)
+    nsites = 0
+    for sub in ("tools", "examples"):
+        for path in sorted(glob.glob(os.path.join(prog.repo, sub, "*.py"))):
+            try:
+                tree = ast.parse(open(path).read(), filename=path)
+            except SyntaxError as e:
+                run.violation("use-site-parses", os.path.relpath(path, prog.repo), "does not parse: %s" % e)
+                continue
+            for n in ast.walk(tree):
+                if not (isinstance(n, ast.Call) and isinstance(n.func, ast.Attribute) and n.func.attr in reffacade.FACADE and n.func.attr in methods):
+                    continue
+                # only calls on a name (s.inquiry(...)), not on modules
+                if not isinstance(n.func.value, ast.Name):
+                    continue
+                name = n.func.attr
+                fn = methods[name]
+                fspec = reffacade.FACADE[name]
+                a = fn.node.args
+                fparams = [p.arg for p in a.args][1:]
+                accepted = set(fparams)
+                if a.kwarg is not None:
+                    cls = prog.cls(*fspec["cls"].split(":"))
+                    accepted |= set(p.arg for p in cls.lookup("__init__")[0].node.args.args)
+                    for cn in fspec["extra"].get("by_service_action", {}).values():
+                        c2 = prog.cls(fspec["cls"].split(":")[0], cn)
+                        accepted |= set(p.arg for p in c2.lookup("__init__")[0].node.args.args)
+                nsites += 1
+                c = "%s:%d %s()" % (os.path.relpath(path, prog.repo), n.lineno, name)
+                bad = [k.arg for k in n.keywords if k.arg is not None and k.arg not in accepted]
+                npos = len([x for x in n.args if not isinstance(x, ast.Starred)])
+                if bad:
+                    run.violation("use-site-arguments-accepted", "%s %s(%s=)" % (os.path.relpath(path, prog.repo), name, bad[0]),
+                                  "%s passes keyword %r which neither SCSI.%s nor the command constructor accepts" % (c, bad[0], name),
+                                  os.path.relpath(path, prog.repo), n.lineno)
+                elif npos > len(fparams) and a.vararg is None:
+                    run.violation("use-site-arguments-accepted", "%s %s positional" % (os.path.relpath(path, prog.repo), name),
+                                  "%s passes %d positional arguments, SCSI.%s takes %d" % (c, npos, name, len(fparams)),
+                                  os.path.relpath(path, prog.repo), n.lineno)
+                else:
+                    run.ok("use-site-arguments-accepted", c)
+    run.count("use_sites", nsites)
